@@ -294,3 +294,90 @@ Proof.
   cbn. intros [_ [H _]]. destruct (H eq_refl 2) as [H1 _]. cbn in H1.
   destruct (H1 (or_introl eq_refl)) as [H2|[]]. discriminate.
 Qed.
+
+(* ---------------------------------------------------------------- further seeded classes, as pinned variants *)
+(* Seeded change C13-3: handleWatchEvents records but does not FORWARD a PUT whose key already
+   carries the same value in watchValue.values.  For an exclusive subscriber the order of
+   registrations is state: put 1=10; put 2=10; put 1=10 again (key 1 is the most recent registrant
+   of 10 again); delete 2 - the re-put never reaches the container, which still believes key 2
+   owns 10 and drops the value although key 1 is registered with it. *)
+Fixpoint forwarded_dedup (r : amap Z) (evs : list bev) : list lev :=
+  match evs with
+  | [] => []
+  | BPut k v :: l => if oz_eqb (mget k r) (Some v) then forwarded_dedup r l
+                     else LAdd k v :: forwarded_dedup (mset k v r) l
+  | BDel k :: l => LDel k :: forwarded_dedup (mdel k r) l
+  end.
+
+Theorem identical_reput_not_forwarded_refuted :
+  let evs := [BPut 1 10; BPut 2 10; BPut 1 10; BDel 2] in
+  fold_left bapply evs [] = [(1, 10)] /\
+  c_view (c_run (new_container true) (map blev evs)) = [10] /\
+  c_view (c_run (new_container true) (forwarded_dedup [] evs)) = [] /\
+  c_view (c_run (new_container false) (forwarded_dedup [] evs)) = [10].
+Proof. vm_compute. repeat split. Qed.
+
+(* Seeded change C13-5: exclusive addKv appends the new key to the slice `keys` read BEFORE the
+   exclusive clean-up (doRemoveKey filtered it in place, the local slice header still sees the
+   removed keys): the superseded keys are resurrected inside values[value] while mapping only
+   knows the newest key; the value can never be emptied again. *)
+Definition add_kv_stale_slice (key value : Z) (c : container) : container :=
+  let c1 := match mget key (cmap c) with
+            | Some old => if old =? value then c else do_remove_key key c
+            | None => c
+            end in
+  let keys := getl value (cvals c1) in
+  let c2 := if cexcl c1 && negb (is_nil keys)
+            then fold_left (fun c' k => do_remove_key k c') keys c1 else c1 in
+  mkC (cexcl c2) (mset value (keys ++ [key]) (cvals c2))
+      (mset key value (cmap c2)) (cnotes c2) (clast c2) true (csnap c2).
+
+Definition c_apply_stale_slice (c : container) (e : lev) : container :=
+  match e with LAdd k v => notify (add_kv_stale_slice k v c) | LDel k => on_delete k c end.
+
+Theorem exclusive_stale_slice_refuted :
+  let log := [LAdd 1 10; LAdd 2 10; LDel 2; LDel 1] in
+  c_view (fold_left c_apply_stale_slice log (new_container true)) = [10] /\
+  c_view (c_run (new_container true) log) = [] /\
+  c_view (fold_left c_apply_stale_slice log (new_container false)) = [].
+Proof. vm_compute. repeat split. Qed.
+
+(* Seeded change C13-2: the resolver's update callback skips cc.UpdateState when a tracker of the
+   published addresses says nothing changed; the tracker prunes vanished addresses only when the
+   view is SMALLER than the tracked set.  Views {1,2} -> {1,3} (same size: 2 stays tracked) ->
+   {1,2,3} (= the bloated tracked set: judged unchanged): the resolver keeps publishing {1,3}.
+   [tr]: None before the first resolve. *)
+Definition tracker_refresh (tr : option (list Z)) (vals : list Z) : list Z * bool :=
+  let t0 := match tr with None => [] | Some t => t end in
+  let ch0 := match tr with None => true | Some _ => false end in
+  let '(t1, ch1) := if Nat.ltb (length vals) (length t0)
+                    then (filter (fun a => zmem a vals) t0, true) else (t0, ch0) in
+  kadd_all vals t1 ch1.
+
+Fixpoint tracked_publications (tr : option (list Z)) (lastpub : list Z) (views : list (list Z)) : list Z :=
+  match views with
+  | [] => lastpub
+  | v :: l => let '(t, ch) := tracker_refresh tr v in
+              tracked_publications (Some t) (if ch then v else lastpub) l
+  end.
+
+Theorem resolver_address_tracker_refuted :
+  tracked_publications None [] [[1; 2]; [1; 3]; [1; 2; 3]] = [1; 3] /\
+  tracked_publications None [] [[1; 2]; [1; 3]] = [1; 3] /\
+  tracked_publications None [] [[1; 2]; [1]; [1; 2]] = [1; 2].
+Proof. vm_compute. repeat split. Qed.
+
+(* Seeded change C13-7: EventHandler.Update returns early unless "changed", where changed() counts
+   address ENTRIES instead of distinct IPs: published {1,2,3,4}; the object becomes
+   [[1,2] (port a); [1,2] (port b)] - 4 entries, all known: judged unchanged, 3 and 4 stay. *)
+Definition k_changed_by_entries (o : kobj) (s : kstate) : bool :=
+  existsb (fun ip => negb (zmem ip (kend s))) (ips o) || negb (Nat.eqb (length (ips o)) (length (kend s))).
+
+Definition k_update_by_entries (o : kobj) (s : kstate) : kstate :=
+  if k_changed_by_entries o s then k_update o s else s.
+
+Theorem kube_entries_counted_refuted :
+  let s := k_update_by_entries (mkObj 2 [[1; 2]; [1; 2]]) (k_update (mkObj 1 [[1; 2; 3; 4]]) kinit) in
+  kend s = [1; 2; 3; 4] /\ klast s = [1; 2; 3; 4] /\
+  kend (k_update (mkObj 2 [[1; 2]; [1; 2]]) (k_update (mkObj 1 [[1; 2; 3; 4]]) kinit)) = [1; 2].
+Proof. vm_compute. repeat split. Qed.
